@@ -301,6 +301,10 @@ class Emitter:
             return m(e, env, k, expect)
         return m(e, env, k)
 
+    def e_term(self, e, env, k):
+        """an already translated term (internal node, see e_mcall)"""
+        return k(e.term, e.ty, env)
+
     def e_paren(self, e, env, k):
         return self.expr(e.e, env, k)
 
@@ -1169,14 +1173,19 @@ class Emitter:
             if rty[0] == "coq":
                 tname = "coq"
             # translated methods of a struct
+            # a receiver that is no place (a call chain `a().b().c()`) and is only read: it has been
+            # evaluated just now, pass the term on instead of translating the expression a second time
+            recv = e.recv
+            if self.place_root(e.recv) is None:
+                recv = N("term", term=rt, ty=rty)
             shape = self.fn_shapes.get("%s::%s" % (tname, name))
             if shape is not None:
-                return self.call_shape(shape, e.recv, e.args, env1, k)
+                return self.call_shape(shape, recv if shape.get("self") == "in" else e.recv, e.args, env1, k)
             ent = self.v.get("methods", {}).get((tname, name)) or self.v.get("fns", {}).get("%s::%s" % (tname, name))
             if ent is not None:
                 if callable(ent):
                     return ent(self, e, rt, rty, env1, k)
-                return self.call_shape(ent, e.recv, e.args, env1, k)
+                return self.call_shape(ent, recv if ent.get("self") == "in" else e.recv, e.args, env1, k)
             b = getattr(self, "m_%s_%s" % (rty[0], name), None)
             if b is not None:
                 return b(e, rt, rty, env1, k)
@@ -1578,9 +1587,11 @@ class Emitter:
             self.counter[cn] = 1
         outs = []
         if shape["self"]:
-            sn = self.fresh(self.v["structs"][struct].get("var", "p"))
-            env = env.bind("self", sn, ("struct", struct), "ref" if shape["self"] == "inout" else False)
-            binders.append("(%s : %s)" % (sn, self.coq_ty(("struct", struct))))
+            # `impl <enum>`: self is a value of the vocabulary enum
+            sty = ("enum", struct) if struct not in self.v.get("structs", {}) and struct in self.v.get("enums", {}) else ("struct", struct)
+            sn = self.fresh(self.v["structs"][struct].get("var", "p") if sty[0] == "struct" else self.v["enums"][struct].get("var", "a"))
+            env = env.bind("self", sn, sty, "ref" if shape["self"] == "inout" else False)
+            binders.append("(%s : %s)" % (sn, self.coq_ty(sty)))
             if shape["self"] == "inout":
                 outs.append("self")
         for (pat, ty), (mode, pty) in zip(fn.params, shape["params"]):
